@@ -231,11 +231,31 @@ def VerifierM.toBytes (v : VerifierM) : List Nat :=
 
 /-! ### transcript -/
 
-def appendCommitment (t : Transcript) (label : String) (p : G1) : Transcript :=
-  t.appendMessage (Strobe.strBytes label) p.toCompressed
+/-- One framed transcript operation. The verifier's whole transcript is the list of these, in the
+    order read from the source (`Generated.SEED_TRANSCRIPT`, `Generated.VERIFIER_TRANSCRIPT`). -/
+inductive TOp where
+  | msg (label : String) (bytes : List Nat)     -- `append_message(label, bytes)`
+  | u64 (label : String) (n : Nat)               -- `append_u64(label, n)`
+  | chal (label : String)                        -- `challenge_scalar(label)` (64 bytes, reduced)
+  | echo (label : String) (name : String)        -- `append_scalar(label, <challenge drawn as name>)`
+  deriving Repr, BEq, DecidableEq
 
-def circuitDomainSep (t : Transcript) (n : Nat) : Transcript :=
-  (t.appendMessage (Strobe.strBytes "dom-sep") (Strobe.strBytes "circuit_size")).appendU64 (Strobe.strBytes "n") n
+/-- interpret an operation list on a transcript, collecting the challenges by label -/
+def runOps (ops : List TOp) (t : Transcript) : Transcript × List (String × Nat) :=
+  ops.foldl (fun (st : Transcript × List (String × Nat)) op =>
+    let (t, chs) := st
+    match op with
+    | .msg l b => (t.appendMessage (Strobe.strBytes l) b, chs)
+    | .u64 l n => (t.appendU64 (Strobe.strBytes l) n, chs)
+    | .chal l => let (t, c) := t.challengeScalar l; (t, (l, c) :: chs)
+    | .echo l name => (t.appendScalar l ((chs.find? (·.1 == name)).map (·.2) |>.getD 0), chs)) (t, [])
+
+/-- Merlin's `Transcript::new(label)` is STROBE initialised with "Merlin v1.0" followed by
+    `append_message("dom-sep", label)` -/
+def merlinInit : Transcript := ⟨Strobe.new (Strobe.strBytes "Merlin v1.0")⟩
+
+def circuitDomainSepOps (n : Nat) : List TOp :=
+  [.msg "dom-sep" (Strobe.strBytes "circuit_size"), .u64 "n" n]
 
 /-- the verifier-key commitments in the order read from the source (`Generated.SEED_TRANSCRIPT`) -/
 def VKey.byLabel (k : VKey) (bindS4 : Bool) (label : String) : G1 :=
@@ -247,13 +267,39 @@ def VKey.byLabel (k : VKey) (bindS4 : Bool) (label : String) : G1 :=
   | "s_sigma_4" => if bindS4 then k.s4 else k.s1
   | _ => .inf
 
-/-- `seed_transcript_inner(bind_s_sigma_4)` -/
-def seedTranscript (t : Transcript) (k : VKey) (bindS4 : Bool) : Transcript :=
-  circuitDomainSep (Generated.SEED_TRANSCRIPT.foldl (fun t l => appendCommitment t l (k.byLabel bindS4 l)) t) k.n
+/-- `Transcript::base` (legacy: `v3 = false`) / `base_v3`: label, circuit size, every verifier-key
+    commitment (`seed_transcript_inner(bind_s_sigma_4 = v3)`), the key's own `n` -/
+def baseOps (label : List Nat) (k : VKey) (constraints : Nat) (v3 : Bool) : List TOp :=
+  [.msg "dom-sep" label] ++ circuitDomainSepOps constraints ++
+  Generated.SEED_TRANSCRIPT.map (fun l => TOp.msg l (k.byLabel v3 l).toCompressed) ++
+  circuitDomainSepOps k.n
 
-/-- `Transcript::base` (legacy) / `base_v3` -/
-def baseTranscript (label : List Nat) (k : VKey) (constraints : Nat) (v3 : Bool) : Transcript :=
-  seedTranscript (circuitDomainSep (Transcript.new label) constraints) k v3
+def ProofM.commByLabel (p : ProofM) (l : String) : G1 :=
+  match l with
+  | "a_comm" => p.aC | "b_comm" => p.bC | "c_comm" => p.cC | "d_comm" => p.dC | "z_comm" => p.zC
+  | "t_low_comm" => p.tLow | "t_mid_comm" => p.tMid | "t_high_comm" => p.tHigh | "t_fourth_comm" => p.tFourth
+  | "w_z_chall_comm" => p.wz | "w_z_chall_w_comm" => p.wzw | _ => .inf
+
+def Evals.byLabel (e : Evals) (l : String) : Nat :=
+  match l with
+  | "a_eval" => e.a | "b_eval" => e.b | "c_eval" => e.c | "d_eval" => e.d
+  | "s_sigma_1_eval" => e.s1 | "s_sigma_2_eval" => e.s2 | "s_sigma_3_eval" => e.s3 | "z_eval" => e.z
+  | "a_w_eval" => e.aw | "b_w_eval" => e.bw | "d_w_eval" => e.dw
+  | "q_arith_eval" => e.qarith | "q_c_eval" => e.qc | "q_l_eval" => e.ql | "q_r_eval" => e.qr
+  | _ => 0
+
+/-- `Proof::verify`'s transcript run, item by item from `Generated.VERIFIER_TRANSCRIPT` -/
+def proofOps (p : ProofM) : List TOp :=
+  Generated.VERIFIER_TRANSCRIPT.filterMap fun item =>
+    match item.splitOn ":" with
+    | ["c", l] => some (.msg l (p.commByLabel l).toCompressed)
+    | ["s", l] => some (if l == "beta" then .echo l "beta" else .msg l (Transcript.scalarBytes (p.ev.byLabel l)))
+    | ["ch", l] => some (.chal l)
+    | _ => none
+
+/-- the complete statement-and-proof transcript of one verification -/
+def statementOps (label : List Nat) (k : VKey) (constraints : Nat) (v3 : Bool) (pis : List Nat) (p : ProofM) : List TOp :=
+  baseOps label k constraints v3 ++ pis.map (fun pi => TOp.msg "pi" (Transcript.scalarBytes pi)) ++ proofOps p
 
 structure Challenges where
   beta : Nat
@@ -269,36 +315,17 @@ structure Challenges where
   u : Nat
   deriving Repr, Inhabited
 
-/-- the verifier's transcript run (`Proof::verify`), following `Generated.VERIFIER_TRANSCRIPT` -/
-def verifierChallenges (t : Transcript) (p : ProofM) : Challenges :=
-  let comm (l : String) : G1 := match l with
-    | "a_comm" => p.aC | "b_comm" => p.bC | "c_comm" => p.cC | "d_comm" => p.dC | "z_comm" => p.zC
-    | "t_low_comm" => p.tLow | "t_mid_comm" => p.tMid | "t_high_comm" => p.tHigh | "t_fourth_comm" => p.tFourth
-    | "w_z_chall_comm" => p.wz | "w_z_chall_w_comm" => p.wzw | _ => .inf
-  let step (st : Transcript × List (String × Nat)) (item : String) : Transcript × List (String × Nat) :=
-    let (t, chs) := st
-    match item.splitOn ":" with
-    | ["c", l] => (appendCommitment t l (comm l), chs)
-    | ["s", l] =>
-      let e := p.ev
-      let v := match l with
-        | "a_eval" => e.a | "b_eval" => e.b | "c_eval" => e.c | "d_eval" => e.d
-        | "s_sigma_1_eval" => e.s1 | "s_sigma_2_eval" => e.s2 | "s_sigma_3_eval" => e.s3 | "z_eval" => e.z
-        | "a_w_eval" => e.aw | "b_w_eval" => e.bw | "d_w_eval" => e.dw
-        | "q_arith_eval" => e.qarith | "q_c_eval" => e.qc | "q_l_eval" => e.ql | "q_r_eval" => e.qr
-        | "beta" => (chs.find? (·.1 == "beta")).map (·.2) |>.getD 0
-        | _ => 0
-      (t.appendScalar l v, chs)
-    | ["ch", l] =>
-      let (t, c) := t.challengeScalar l
-      (t, (l, c) :: chs)
-    | _ => st
-  let (_, chs) := Generated.VERIFIER_TRANSCRIPT.foldl step (t, [])
+def challengesOf (chs : List (String × Nat)) : Challenges :=
   let get (l : String) : Nat := (chs.find? (·.1 == l)).map (·.2) |>.getD 0
   { beta := get "beta", gamma := get "gamma", alpha := get "alpha",
     rangeSep := get "range separation challenge", logicSep := get "logic separation challenge",
     fixedSep := get "fixed base separation challenge", varSep := get "variable base separation challenge",
     z := get "z_challenge", v := get "v_challenge", vw := get "v_w_challenge", u := get "u_challenge" }
+
+/-- all challenges of one verification -/
+def verifierChallenges (label : List Nat) (k : VKey) (constraints : Nat) (v3 : Bool) (pis : List Nat) (p : ProofM) :
+    Challenges :=
+  challengesOf (runOps (statementOps label k constraints v3 pis p) merlinInit).2
 
 /-! ### linearisation scalars (one per widget) -/
 
@@ -391,10 +418,10 @@ def verifyTerms (vkey : VKey) (g : G1) (d : Domain) (roots pis : List Nat) (p : 
     let left := [(R - 1, p.wz), (fneg ch.u, p.wzw)]
     some (right, left)
 
-/-- Textbook form of the right-hand pairing input:
-    `[D] + Σ vⁱ·Cᵢ + u·Σ v_wⁱ·C'ᵢ − E·g + z·W_z + u·z·ω·W_zω` (ungrouped) -/
-def verifyRefPoint (vkey : VKey) (g : G1) (d : Domain) (roots pis : List Nat) (p : ProofM) (ch : Challenges)
-    (legacy : Bool) : Option G1 :=
+/-- Textbook form of the right-hand pairing input, as (scalar, point) terms, ungrouped:
+    `[D] + Σ vⁱ·Cᵢ + u·Σ v_wⁱ·C'ᵢ − E·g + z·W_z + u·z·ω·W_zω` -/
+def verifyRefTerms (vkey : VKey) (g : G1) (d : Domain) (roots pis : List Nat) (p : ProofM) (ch : Challenges)
+    (legacy : Bool) : Option (List (Nat × G1)) :=
   match d.lagrangeAndPi roots pis ch.z with
   | none => none
   | some (l1, piEval) =>
@@ -404,19 +431,23 @@ def verifyRefPoint (vkey : VKey) (g : G1) (d : Domain) (roots pis : List Nat) (p
     let opened : List (Nat × G1) :=
       [(e.a, p.aC), (e.b, p.bC), (e.c, p.cC), (e.d, p.dC), (e.s1, vkey.s1), (e.s2, vkey.s2), (e.s3, vkey.s3)] ++
       (if legacy then [] else [(e.qarith, vkey.qarith), (e.qc, vkey.qc), (e.ql, vkey.ql), (e.qr, vkey.qr)])
-    -- unshifted openings with powers v¹ … ; r(X) itself carries v⁰ and evaluation r₀ … folded into [D]
+    -- unshifted openings carry v¹, v², … (the linearisation polynomial itself carries v⁰ and value r₀)
     let (fz, ez, _) := opened.foldl (fun (acc : List (Nat × G1) × Nat × Nat) (ev, c) =>
         let (ts, es, pw) := acc
         ((pw, c) :: ts, fadd es (fmul pw ev), fmul pw ch.v)) ([], 0, ch.v % R)
+    -- shifted openings carry u·v_w⁰, u·v_w¹, …
     let shifted : List (Nat × G1) := [(e.z, p.zC), (e.aw, p.aC), (e.bw, p.bC), (e.dw, p.dC)]
     let (fw, ew, _) := shifted.foldl (fun (acc : List (Nat × G1) × Nat × Nat) (ev, c) =>
         let (ts, es, pw) := acc
         ((fmul ch.u pw, c) :: ts, fadd es (fmul (fmul ch.u pw) ev), fmul pw ch.vw)) ([], 0, 1 % R)
     -- [D] without the `u·[z]` term, which belongs to the shifted opening of z
-    let dTerms := (linearizationTerms vkey p ch zh l1).map fun (s, pt) => (s, pt)
-    let dNoU := dTerms ++ [(fneg ch.u, p.zC)]
+    let dNoU := linearizationTerms vkey p ch zh l1 ++ [(fneg ch.u, p.zC)]
     let eTotal := fadd (fadd ez ew) (fneg r0)
-    some (G1.msum (dNoU ++ fz ++ fw ++ [(fneg eTotal, g), (ch.z, p.wz), (fmul (fmul ch.u ch.z) d.groupGen, p.wzw)]))
+    some (dNoU ++ fz ++ fw ++ [(fneg eTotal, g), (ch.z, p.wz), (fmul (fmul ch.u ch.z) d.groupGen, p.wzw)])
+
+def verifyRefPoint (vkey : VKey) (g : G1) (d : Domain) (roots pis : List Nat) (p : ProofM) (ch : Challenges)
+    (legacy : Bool) : Option G1 :=
+  (verifyRefTerms vkey g d roots pis p ch legacy).map G1.msum
 
 inductive VOutcome where | ok | piLen | reject
   deriving Repr, BEq, DecidableEq
@@ -428,9 +459,7 @@ def VerifierM.verify (v : VerifierM) (x : Nat) (p : ProofM) (pis : List Nat) (ve
   | none => .reject
   | some d =>
     let roots := v.piIndexes.map fun i => fpow d.groupGenInv (i % 2 ^ 64)
-    let t := baseTranscript v.label v.vk v.constraints (ver == .v3)
-    let t := pis.foldl (fun t pi => t.appendScalar "pi" pi) t
-    let ch := verifierChallenges t p
+    let ch := verifierChallenges v.label v.vk v.constraints (ver == .v3) pis p
     match verifyTerms v.vk v.ok.g d roots pis p ch (ver == .v1) with
     | none => .reject
     | some (right, left) =>
